@@ -65,12 +65,23 @@ def obligations(tier):
                              'report 1 after the reload',
                       claim='after reload_all the MDIB holds the GetMdib content plus exactly the buffered reports that are newer, each '
                             'applied once; a replayed notification changes nothing'))
-    mp = [(a, b) for a in range(3) for b in range(3)] if tier == 'thorough' else [(0, 0), (1, 2), (2, 0)]
+    mp = [(a, b) for a in range(3) for b in range(3)] if tier == 'thorough' else [(0, 0), (1, 2), (2, 0), (1, 1)]
     for a, b in mp:
         obs.append(Ob(f'C06.descr.{MODS[a]}.{MODS[b]}', 'harness.C06', 'description_report_faults', bind={'mod1': a, 'mod2': b},
                       timeout=t, functions=F, stubs=STUBS,
-                      bounds='2 DescriptionModificationReports (1 part each) with unconstrained MdibVersions, DescriptorVersion, '
-                             'StateVersion', claim='lookups stay consistent, no dangling state, stale report changes nothing'))
+                      bounds='2 DescriptionModificationReports (1 part each) with unconstrained MdibVersions and unconstrained '
+                             'DescriptorVersion / StateVersion per report',
+                      claim='no report makes the handler fail (duplicate CREATE, UPDATE of something unknown ...), lookups stay '
+                            'consistent, no dangling state, no StateVersion decreases, a stale report changes nothing'))
+    for cp in (1, 2):
+        obs.append(Ob(f'C06.reload.description_create.x{cp}', 'harness.C06', 'reload_with_description_reports', bind={'copies': cp}, timeout=t,
+                      functions=[*F, 'sdc11073.mdib.consumermdib.ConsumerMdib._process_incoming_description_modifications',
+                                 'sdc11073.mdib.consumermdib.ConsumerMdib._can_accept_report'], stubs=STUBS,
+                      bounds=f'reload_all while the CREATE report of metric m9 arrives {cp}x during GetMdib; unconstrained MdibVersions of '
+                             'answer and report; optionally the state report of the same transaction first; optionally from another '
+                             'InstanceId; the answer does / does not contain m9',
+                      claim='the load ends initialized with an empty buffer; reports of this provider instance newer than the answer are '
+                            'applied exactly once, all others not at all; no exception, no state without descriptor'))
     obs.append(Ob('C06.faulty.waveform.waveform', 'harness.C06', 'faulty_waveforms', timeout=t,
                   functions=[*F, 'sdc11073.mdib.consumermdib.ConsumerMdib.process_incoming_waveform_states',
                              'sdc11073.mdib.consumermdib.ConsumerRtBuffer.add_rt_sample_containers'], stubs=STUBS,
